@@ -5,3 +5,5 @@ CONSTANTS
   NGetters = 0
   MaxMut = 0
   Recheck = TRUE
+  Precheck = FALSE
+  NMutators = 1
